@@ -333,6 +333,22 @@ def rule_c(R, ctx):
                                 got_ds = True
         R.ob("C02.c", m, "push:pending", got_p, "pending.update is pushed into the merge list: %s" % got_p)
         R.ob("C02.c", m, "push:pending_ds", got_ds, "an update carrying pending_ds is pushed into the merge list: %s" % got_ds)
+        # independence: each stash is forwarded on its own presence test alone — a store can hold a stashed delete set without
+        # stashed blocks (a deletion that arrived before its target) and the other way round
+        for cs, site in ordinal_sites(pbs):
+            g = mv.guards(cs.bb)
+            tests = []
+            for l in g:
+                if term_has_field(l.term, "Store.pending_ds"):
+                    tests.append(("pending_ds", l.polarity))
+                elif term_has_field(l.term, "Store.pending"):
+                    tests.append(("pending", l.polarity))
+                else:
+                    tests.append((l.desc[:50], l.polarity))
+            ok_i = len(tests) == 1 and tests[0][1] == "Some" and tests[0][0] in ("pending", "pending_ds")
+            R.ob("C02.c", m, "alone:" + site, ok_i, "forwarded exactly where %s is Some" % tests[0][0] if ok_i else
+                 "a stash is forwarded under %s — not under its own presence test alone: a replica that holds only this kind of stash "
+                 "exports without it" % (tests,), cs.loc())
         # return value: merged bytes on the non-empty path
         ret = mv.terms.local(0, 14)
         R.ob("C02.c", m, "return", term_has_call(ret, "yrs::alt::merge_updates_" + ver), "returns %s" % sshow(ret, 5))
